@@ -214,6 +214,17 @@ fn check_poly(v: &[P2], obs: &mut Obs) {
         if mp != want {
             obs.fail("translated-polyline-points-move-along", format!("{} points after translate, {} expected", mp.len(), want.len()));
         }
+        // moved once more, this time in place (translate_mut on an already translated polyline)
+        {
+            let d2 = Point::new(-13, 9);
+            let mut twice = moved;
+            twice.translate_mut(d2);
+            let tp: Pts = twice.points().map(|p| (p.x, p.y)).collect();
+            let want2: Pts = want.iter().map(|(x, y)| (x + d2.x, y + d2.y)).collect();
+            if tp != want2 || twice != moved.translate(d2) {
+                obs.fail("translated-polyline-points-move-along", format!("translate({:?}) then translate_mut({:?}): {} points, {} expected; equals translate twice: {}", (d.x, d.y), (d2.x, d2.y), tp.len(), want2.len(), twice == moved.translate(d2)));
+            }
+        }
         let styled = moved.into_styled(PrimitiveStyle::with_stroke(BinaryColor::On, 1));
         let sp: Pts = styled.pixels().map(|p| (p.0.x, p.0.y)).collect();
         if sp != want {
